@@ -9,6 +9,7 @@ changes of intermediate links are reported for '.' links and not for ':' links.
 No arithmetic in the code under test: the solver contributes list indices and choice feasibility only.
 """
 from vt import symx
+from traits.api import Int
 from vt.oblig import Obligation
 import props._graphs as G
 
@@ -34,6 +35,7 @@ NAMES = {
     "mapping.value": ("mapping.items.value", ("mapping",), True),
     "child.child.value": ("child.child.value", ("child", "child"), True),
     "child.children.value": ("child.children.items.value", ("child", "children"), True),
+    "entries.value": ("entries.items.value", ("entries",), True),
 }
 # names whose last element is not the plain attribute 'value': the attributes selected by metadata, and containers in terminal
 # position (the legacy handler hears whole-value changes and in-place changes of the container alike)
@@ -47,11 +49,36 @@ MUTS = {
     "child": ["child=", "child=None", "grandchild=", "child_children_append", "bad_registration", "del_child"],
     "children": ["append", "insert", "del", "setitem", "reverse", "sort", "clear", "assign_list", "bad_registration", "del_children"],
     "mapping": ["map_set", "map_del", "map_update_mixed", "map_assign", "bad_registration", "del_mapping"],
+    "entries": ["map_set", "map_del", "map_update_mixed", "map_replace", "map_assign"],
 }
 
 
-def mutate(ex, step, root, mut, fresh):
+def mutate(ex, step, root, mut, fresh, dattr="mapping"):
     n = len(root.children)
+    if mut.startswith("map_") and dattr != "mapping":
+        d = getattr(root, dattr)
+        if mut == "map_set":
+            d["k%d" % step] = fresh()
+        elif mut == "map_del":
+            if d:
+                d.pop(sorted(d)[0])
+        elif mut == "map_replace":
+            if d:
+                d[sorted(d)[0]] = fresh()          # the value under an existing key is replaced
+        elif mut == "map_update_mixed":
+            upd = {"new%d" % step: fresh()}
+            if d:
+                upd[sorted(d)[0]] = fresh()
+            d.update(upd)
+        else:
+            setattr(root, dattr, {"z": fresh()})
+        return
+    if mut == "add_mtag_trait":
+        # a trait carrying the metadata is ADDED to the object currently reachable along the link, after the registration
+        tgt = root.child
+        if tgt is not None and "tv_added" not in tgt.trait_names():
+            tgt.add_trait("tv_added", Int(0, mtag=True))
+        return
     if mut == "child=":
         root.child = fresh()
     elif mut == "child=None":
@@ -141,7 +168,7 @@ def harness_factory(lname, k, nargs, twins=False, form="lambda"):
         oexpr, steps, first_notifies, final = FINALS[lname]
     else:
         oexpr, steps, first_notifies = NAMES[lname]
-    muts = MUTS[steps[0]]
+    muts = MUTS[steps[0]] + (["add_mtag_trait"] if final == "+mtag" else [])
 
     def harness(ex):
         errors = []
@@ -210,6 +237,7 @@ def harness_factory(lname, k, nargs, twins=False, form="lambda"):
                 root.child = fresh()
             root.children = [fresh(), fresh()]
             root.mapping = {"a": fresh()}
+        root.entries = {"e": fresh()}
         if form == "methods":
             r1, r2 = _Recorder(legacy, modern), _Recorder(legacy2, modern2)
         if nargs == 0:
@@ -261,7 +289,7 @@ def harness_factory(lname, k, nargs, twins=False, form="lambda"):
                         pass
             else:
                 try:
-                    mutate(ex, step, root, mut, fresh)
+                    mutate(ex, step, root, mut, fresh, dattr=steps[0] if steps[0] == "entries" else "mapping")
                 except symx.PathAbort:
                     raise
                 except Exception as e:
@@ -295,7 +323,7 @@ def harness_factory(lname, k, nargs, twins=False, form="lambda"):
             reach = G.reachable(root, steps)
             probes = [("value", True)]
             if final == "+mtag":
-                probes = [("tv_a", True), ("tv_f", True), ("tv_n", False)]
+                probes = [("tv_a", True), ("tv_f", True), ("tv_n", False), ("tv_added", True)]
             elif final != "value":
                 probes = [(final, True)]
             for node, (attr, selected) in [(n_, p_) for n_ in nodes for p_ in probes]:
@@ -303,6 +331,8 @@ def harness_factory(lname, k, nargs, twins=False, form="lambda"):
                 modern.clear()
                 legacy2.clear()
                 modern2.clear()
+                if attr == "tv_added" and "tv_added" not in node.trait_names():
+                    continue
                 if attr == "mapping":
                     node.mapping["probe%d" % step] = fresh()          # in place
                 elif attr == "children":
@@ -349,6 +379,52 @@ def harness_factory(lname, k, nargs, twins=False, form="lambda"):
     return harness
 
 
+def group_harness(ex):
+    """a bracketed group of links in an extended name - '[child,tchild]:value' / '[child,tchild].value': the connector after the
+    group applies to every member, exactly as in the observe expression of the same spelling"""
+    errors = []
+    _eh.push_exception_handler(handler=lambda e: errors.append(e), reraise_exceptions=False)
+    push_exception_handler(lambda *a: errors.append(a), reraise_exceptions=False)
+    try:
+        N = G.mk_node_class()
+        conn = [":", "."][ex.choice("connector", 2)]
+        name = "[child,tchild]" + conn + "value"
+        counter = [0]
+
+        def fresh():
+            counter[0] += 1
+            return N(name="g%02d" % counter[0])
+        root = N(name="root")
+        root.child, root.tchild = fresh(), fresh()
+        legacy, modern = [], []
+        root.on_trait_change(lambda obj, n_, old, new: legacy.append(n_), name)
+        root.observe(lambda e: modern.append(e.name), name)
+        detached = []
+        for step in range(2):
+            op = ex.choice("op%d" % step, 4)
+            del legacy[:], modern[:]
+            if op in (0, 1):
+                attr = ("child", "tchild")[op]
+                detached.append(getattr(root, attr))
+                setattr(root, attr, fresh())             # a member of the group is re-assigned
+                ex.check(sorted(legacy) == sorted(modern), "re-assigning a member of the group is reported to the legacy handler exactly "
+                                                           "as to the observe handler (never after ':', once after '.')")
+                ex.check((len(modern) == 0) == (conn == ":"), "(reference) observe reports the member's re-assignment iff the connector is '.'")
+            elif op == 2:
+                root.child.value += 1
+                root.tchild.value += 1
+                ex.check(legacy == ["value", "value"] and modern == ["value", "value"], "a change of the final attribute of either member is heard once")
+            else:
+                for d_ in detached:
+                    d_.value += 1
+                ex.check(legacy == [] and modern == [], "a detached member is not heard")
+        ex.check(errors == [], "no listener raised")
+        return {"connector": conn}
+    finally:
+        pop_exception_handler()
+        _eh.pop_exception_handler()
+
+
 def obligations(tier, build):
     obs = []
     K = 2 if tier == "quick" else 3
@@ -377,6 +453,8 @@ def obligations(tier, build):
                               bounds={"extended name": "method _value_changed_for_" + NAMES[lname][1][0], "observe expression": NAMES[lname][0],
                                       "history length": K, "constructor arguments": "flag"},
                               leverage="list indices; otherwise choice feasibility only", max_paths=100000, path_wall_s=60))
+    obs.append(Obligation("group-of-links", group_harness, bounds={"names": ["[child,tchild]:value", "[child,tchild].value"], "history length": 2},
+                          leverage="choice feasibility only"))
     FK = 2          # (the forms multiply the histories by the declaration flags: length 2 in both tiers, all names in thorough)
     for form in ("methods", "decorated", "overridden"):
         for lname in NAMES:
